@@ -660,6 +660,149 @@ theorem invClose_step (s : St) (ev : Ev) (s' : St) (hi : InvClose s) (h : step s
       · simp at h
     · simp at h
 
+/-- the selector thread exits only after `close()` has set the flag -/
+def InvExit (s : St) : Prop := s.spc = .exited → s.closingFlag = true
+
+theorem invExit_step (s : St) (ev : Ev) (s' : St) (hi : InvExit s) (h : step s ev = some s') : InvExit s' := by
+  cases ev with
+  | start a =>
+    simp only [step] at h
+    split at h
+    · simp only [Option.some.injEq] at h; subst h; exact hi
+    · simp at h
+  | addReader fd =>
+    simp only [step] at h
+    split at h
+    · simp only [Option.some.injEq] at h; subst h; exact hi
+    · simp at h
+  | addWriter fd =>
+    simp only [step] at h
+    split at h
+    · simp only [Option.some.injEq] at h; subst h; exact hi
+    · simp at h
+  | removeReader fd found =>
+    simp only [step] at h
+    split at h
+    · simp only [Option.some.injEq] at h; subst h; exact hi
+    · split at h
+      · simp only [Option.some.injEq] at h; subst h; exact hi
+      · simp at h
+  | removeWriter fd found =>
+    simp only [step] at h
+    split at h
+    · simp only [Option.some.injEq] at h; subst h; exact hi
+    · simp at h
+  | wake =>
+    simp only [step] at h
+    split at h
+    · simp only [Option.some.injEq] at h; subst h; exact hi
+    · split at h
+      · simp only [Option.some.injEq] at h; subst h; exact hi
+      · simp at h
+  | handleBegin res =>
+    simp only [step] at h
+    split at h
+    · split at h
+      · simp only [Option.some.injEq] at h; subst h; exact hi
+      · simp at h
+    · simp at h
+  | dispatch isW fd =>
+    simp only [step] at h
+    split at h
+    · simp at h
+    · split at h
+      · split at h
+        · split at h
+          · split at h
+            · simp only [Option.some.injEq] at h; subst h; exact hi
+            · simp at h
+          · simp at h
+        · split at h
+          · split at h
+            · simp only [Option.some.injEq] at h; subst h; exact hi
+            · simp at h
+          · simp at h
+      · simp at h
+  | consume n =>
+    simp only [step] at h
+    split at h
+    · simp at h
+    · split at h
+      · split at h
+        · split at h
+          · simp only [Option.some.injEq] at h; subst h; exact hi
+          · simp at h
+        · simp at h
+      · simp at h
+  | raised =>
+    simp only [step] at h
+    split at h
+    · simp at h
+    · split at h
+      · simp only [Option.some.injEq] at h; subst h; exact hi
+      · simp at h
+  | post a =>
+    simp only [step] at h
+    split at h
+    · simp at h
+    · split at h
+      · split at h
+        · simp only [Option.some.injEq] at h; subst h; exact hi
+        · simp at h
+      · simp at h
+  | setClosing =>
+    simp only [step] at h
+    split at h
+    · simp only [Option.some.injEq] at h; subst h; exact fun _ => rfl
+    · simp at h
+  | joined =>
+    simp only [step] at h
+    split at h
+    · simp only [Option.some.injEq] at h; subst h; exact hi
+    · simp at h
+  | closed =>
+    simp only [step] at h
+    split at h
+    · simp only [Option.some.injEq] at h; subst h; exact hi
+    · simp at h
+  | ready isW fd =>
+    simp only [step] at h
+    split at h
+    · simp at h
+    · split at h <;> (simp only [Option.some.injEq] at h; subst h; exact hi)
+  | unready isW fd =>
+    simp only [step] at h
+    split at h <;> (simp only [Option.some.injEq] at h; subst h; exact hi)
+  | take a =>
+    simp only [step] at h
+    split at h
+    · simp only [Option.some.injEq] at h; subst h; intro hx; simp at hx
+    · simp at h
+  | sexit =>
+    simp only [step] at h
+    split at h
+    · rename_i hc
+      simp only [Bool.and_eq_true] at hc
+      simp only [Option.some.injEq] at h; subst h; exact fun _ => hc.2
+    · simp at h
+  | selected res =>
+    simp only [step] at h
+    split at h
+    · split at h
+      · simp only [Option.some.injEq] at h; subst h; intro hx; simp at hx
+      · simp at h
+    · simp at h
+  | report res =>
+    simp only [step] at h
+    split at h
+    · split at h
+      · simp only [Option.some.injEq] at h; subst h; intro hx; simp at hx
+      · simp at h
+    · simp at h
+
+theorem exit_only_after_closing (s : St) (hr : Reach s) : s.spc = .exited → s.closingFlag = true :=
+  reach_inv InvExit (by simp [InvExit, init]) invExit_step s hr
+
 /-! ### all invariants hold in every reachable state -/
 def Inv (s : St) : Prop := InvTok s ∧ InvWake s ∧ InvClose s
 
@@ -849,6 +992,69 @@ theorem selected_reports_ready (s s' : St) (a res : Sets) (hs : s.spc = .selecti
     have hm : fd ∈ s.readyR := by simpa using hready
     exact ⟨hfd, by simp [hne, hm]⟩
   · simp at h
+
+/-- **no lost event, safety form** (what the harness's settle phase observes): take a reachable state in which the
+loop thread is between callbacks, owes no wake-up and has not begun to close.  If the system is *quiescent* — the
+selector thread has no enabled step and no `_handle_select` callback is queued — then no registered user fd is
+readable and no registered fd is writable: every readiness of a registered fd forces further steps, it cannot be
+slept on. -/
+theorem quiescent_nothing_ready (s : St) (hr : Reach s) (hl : s.lpc = .running) (hp : s.pendingWake = false)
+    (hc : s.closingFlag = false)
+    (hS : ∀ ev, ev.isS = true → step s ev = none) (hQ : s.queue = []) :
+    (∀ fd ∈ s.readers, fd ≠ waker → s.readyR.contains fd = false) ∧
+    (∀ fd ∈ s.writers, s.readyW.contains fd = false) := by
+  have ht := token_unique s hr
+  unfold tokens at ht
+  have hne : ¬ (LPc.running = LPc.fresh) := by simp
+  simp only [hl, hQ, hne, ↓reduceIte, List.length_nil, tokL_running] at ht
+  cases hspc : s.spc with
+  | exited =>
+    have := exit_only_after_closing s hr hspc
+    rw [hc] at this; exact absurd this (by simp)
+  | idle =>
+    -- then the token is in `_select_args`, and `take` is enabled
+    simp only [hspc, tokS_idle] at ht
+    cases hargs : s.args with
+    | none => simp [hargs] at ht
+    | some a =>
+      have := hS (.take a) rfl
+      simp [step, hspc, hl, hc, hargs] at this
+  | selected r =>
+    have := hS (.report r) rfl
+    simp [step, hspc] at this
+  | selecting a =>
+    have hblocked := hS (.selected (selectResult s a)) rfl
+    have hempty : (selectResult s a).isEmpty = true := by
+      cases he : (selectResult s a).isEmpty with
+      | true => rfl
+      | false => simp [step, hspc, he] at hblocked
+    have hcur : a = current s := by
+      by_cases hcur : a = current s
+      · exact hcur
+      · obtain ⟨s', hs'⟩ := stale_select_returns s hr a hspc hcur hp
+        rw [hblocked] at hs'; exact absurd hs' (by simp)
+    simp only [Sets.isEmpty, Bool.and_eq_true, List.isEmpty_iff] at hempty
+    obtain ⟨her, hew⟩ := hempty
+    subst hcur
+    constructor
+    · intro fd hfd hnw
+      cases hrd : s.readyR.contains fd with
+      | false => rfl
+      | true =>
+        have : fd ∈ (selectResult s (current s)).r := by
+          simp only [selectResult, current, List.mem_filter]
+          refine ⟨hfd, ?_⟩
+          have hm : fd ∈ s.readyR := by simpa using hrd
+          simp [hnw, hm]
+        rw [her] at this; simp at this
+    · intro fd hfd
+      cases hrd : s.readyW.contains fd with
+      | false => rfl
+      | true =>
+        have : fd ∈ (selectResult s (current s)).w := by
+          simp only [selectResult, current, List.mem_filter]
+          exact ⟨hfd, hrd⟩
+        rw [hew] at this; simp at this
 
 /-- stretch goal (not proved; covered by the tie's settle-phase oracle): under weak fairness of both threads an fd
 that stays registered and ready is dispatched within two token rounds. -/
